@@ -154,6 +154,58 @@ Definition dec_frames (l : bytes) : option (list (N * bytes)) :=
     else option_map fst (dec_frames_n (N.to_nat (n / 2)) r)
   end.
 
+(* ---- the same decoder with the leniencies of the library on input it did not produce itself (msgpack's DecodeUint64
+   takes nil as 0 and every signed code as its two's complement; a nil in place of the whole set is the empty set).
+   Bodies are still only delimited (Skip): typed decoding of a body may refuse more, never less. *)
+Definition twos (bits : N) (v : N) : N := if v <? 2 ^ (bits - 1) then v else 2 ^ 64 - (2 ^ bits - v).
+Definition dec_uint_len (l : bytes) : option (N * bytes) :=
+  match l with
+  | [] => None
+  | c :: r =>
+    if c <=? 127 then Some (c, r)
+    else if c =? 192 then Some (0, r)
+    else if 224 <=? c then Some (2 ^ 64 - (256 - c), r)
+    else if c =? 204 then option_map (fun p => (be_val (fst p) 0, snd p)) (take 1 r)
+    else if c =? 205 then option_map (fun p => (be_val (fst p) 0, snd p)) (take 2 r)
+    else if c =? 206 then option_map (fun p => (be_val (fst p) 0, snd p)) (take 4 r)
+    else if c =? 207 then option_map (fun p => (be_val (fst p) 0, snd p)) (take 8 r)
+    else if c =? 208 then option_map (fun p => (twos 8 (be_val (fst p) 0), snd p)) (take 1 r)
+    else if c =? 209 then option_map (fun p => (twos 16 (be_val (fst p) 0), snd p)) (take 2 r)
+    else if c =? 210 then option_map (fun p => (twos 32 (be_val (fst p) 0), snd p)) (take 4 r)
+    else if c =? 211 then option_map (fun p => (twos 64 (be_val (fst p) 0), snd p)) (take 8 r)
+    else None
+  end.
+Fixpoint dec_frames_n_len (n : nat) (l : bytes) : option (list (N * bytes) * bytes) :=
+  match n with
+  | O => Some ([], l)
+  | S n' =>
+    match dec_uint_len l with
+    | None => None
+    | Some (ty, r) =>
+      match skip (S (List.length r)) r with
+      | None => None
+      | Some rest =>
+        let body := firstn (List.length r - List.length rest) r in
+        match dec_frames_n_len n' rest with
+        | Some (fs, tl) => Some ((ty, body) :: fs, tl)
+        | None => None
+        end
+      end
+    end
+  end.
+Definition dec_frames_len (l : bytes) : option (list (N * bytes)) :=
+  match l with
+  | 192 :: _ => Some []
+  | _ =>
+    match dec_arr_hdr l with
+    | None => None
+    | Some (n, r) =>
+      if N.odd n then None
+      else if N.of_nat (List.length r) <? n then None
+      else option_map fst (dec_frames_n_len (N.to_nat (n / 2)) r)
+    end
+  end.
+
 (* the decoder's wire-driven pre-size of the caveat slice (after the repair of F4): min(n/2, 64) slots *)
 Definition prealloc_slots (l : bytes) : N :=
   match dec_arr_hdr l with
